@@ -30,6 +30,14 @@ CHECKS = {
                      "and compared with a reference disk model; complete enumeration per buffer size.",
                 note="trusted: VHD specification transcription in mc/builders/vhd.py (validated against both repository "
                      "fixtures incl. checksums), CPython, AlignedStream; block sizes >= 4 KiB only"),
+    "C03": dict(level=MC, ref="DESIGN.md section 4 C03",
+                text="Every non-differencing VHDX of the bounded space (block size 1 MiB..256 MiB x sector 512/4096 x size form "
+                     "x header sequence pair x region order x every BAT-state assignment and injective placement of a 3-4 "
+                     "block window, also placed around the first interleaved sector-bitmap entry) is served from a virtual "
+                     "sparse file and read with every boundary request via seek/read and read_sectors against a reference "
+                     "disk model; complete enumeration per buffer size, including a buffer larger than a block.",
+                note="trusted: [MS-VHDX] transcription in mc/builders/vhdx.py (decodes all three fixtures incl. CRC-32C), "
+                     "CPython, AlignedStream; requests longer than a few buffers are a fixed list (cost follows bytes)"),
 }
 
 PENDING_REASON = "check not built yet in this session (planned in DESIGN.md section 4); not claimed until it runs"
